@@ -287,7 +287,17 @@ def check_config(ctx, F, tag, text, lists):
     ok = len(wc) == 1
     if ok:
         w = fr.term_of_operand(wc[0]["args"][1])
-        ok = m(Call("bits::bit_len", ANY), w) and any(x[0] == "call" and x[1].endswith("::last") for x in subterms(w)) and any(x[0] == "field" and x[2] == "1" for x in subterms(w))
+        ok = m(Call("bits::bit_len", ANY), w)
+        if ok:
+            # the measured value: the bit offset (component 1) of the last sample, 0 when there is none -- as one expression
+            # (`unwrap_or(&(0, 0)).1`) or as the two arms of a match on `last()`
+            inner = strip_casts(core(w)[2][0])
+            alts = [inner]
+            if inner[0] == "var":
+                alts = [strip_casts(fr.term_of_rvalue(p) if k == "assign" else fr.term_of_call(p)) for (_, _, k, p) in fr.defs().get(inner[1], []) if k in ("assign", "call")]
+            main = [a for a in alts if any(x[0] == "call" and x[1].endswith("::last") for x in subterms(a)) and any(x[0] == "field" and x[2] == "1" for x in subterms(a))]
+            rest = [a for a in alts if a not in main]
+            ok = len(main) == 1 and all(a[0] == "const" and a[1] == 0 for a in rest)
     ctx.ob("C07.R4.sample-width-minimal", fr.name + tag, loc(fr.raw["span"]), ok, "term-provenance", "samples width = bit_len(last sample's bit offset): %s" % ok)
 
     # ---------------- R5 files without support structures load
